@@ -864,8 +864,8 @@ pub fn payload_from_args<'a>(args: &'a [DltArg<'a>]) -> Vec<u8> {
         // serialize the args
         // type_info, len and payload
         for arg in args {
-            let persist_len_u16 = if arg.type_info & (DLT_TYPE_INFO_STRG | DLT_TYPE_INFO_RAWD) != 0
-            {
+            let has_len = arg.type_info & (DLT_TYPE_INFO_STRG | DLT_TYPE_INFO_RAWD) != 0;
+            let persist_len_u16 = if has_len {
                 arg.payload_raw.len() as u16
             } else {
                 0u16
@@ -877,7 +877,7 @@ pub fn payload_from_args<'a>(args: &'a [DltArg<'a>]) -> Vec<u8> {
                 arg.type_info.to_le_bytes()
             };
             payload.extend_from_slice(&type_info);
-            if persist_len_u16 > 0 {
+            if has_len {
                 payload.extend_from_slice(&if big_endian {
                     persist_len_u16.to_be_bytes()
                 } else {
